@@ -6,6 +6,8 @@ import (
 	"fmt"
 	"go/token"
 	"go/types"
+	"os"
+	"runtime"
 )
 
 type symString struct {
@@ -24,6 +26,11 @@ type itoaTok struct {
 
 func (t *itoaTok) materialize() []value {
 	if !t.done {
+		if os.Getenv("VCHECK_DEBUG_ITOA") != "" {
+			buf := make([]byte, 1<<13)
+			n := runtime.Stack(buf, false)
+			fmt.Fprintf(os.Stderr, "ITOA materialize:\n%s\n", buf[:n])
+		}
 		t.bytes = t.p.itoaBytes(t.v)
 		t.done = true
 	}
